@@ -9,6 +9,7 @@
 
 mod c08;
 mod c15;
+mod c18;
 mod common;
 
 use common::*;
@@ -80,6 +81,7 @@ fn main() {
         let vs = match v["kind"].as_str().unwrap_or("") {
             "c15" => c15::replay(&v),
             "c08" => c08::replay(&v),
+            "c18" => c18::replay(&v),
             k => harness_error(&format!("unknown replay kind {k}")),
         };
         match vs.first() {
@@ -142,6 +144,19 @@ fn main() {
                 "timing perturbation by a slow preprocessor is replaced by direct control of the interleaving".into(),
             ],
             |sub, acc, ctx, thorough| c08::run_workload(sub, None, acc, ctx, thorough),
+        ),
+        "C18" => drive(
+            &opts,
+            "fault_enumeration",
+            "c18",
+            opts.cases(220, 6000),
+            jobs,
+            "one evaluation = one run of the real rg binary (-j1 --sort path) over 1-5 files that reach it through a scripted child process: --pre <stub>, --pre with --pre-glob selecting a subset, -z with the stub installed first in PATH as gzip/bzip2/xz, -z with the real gzip/bzip2/xz on valid and truncated archives, a missing and a non-executable --pre command. Each file's child has a fate drawn from the seed: clean; noise on stderr with exit 0; 8 MiB stderr flood around its output; exit 1/2/127/255 after all output; the same before any output; SIGABRT after output; or output followed by 1.6 MB of filler so that ripgrep's early stop (-m1, -l, -q) certainly closes the pipe while the child is blocked in write (plain, with stderr noise, or ignoring SIGPIPE and exiting 1). Three runs per workload: a plain rg over a shadow tree holding exactly the bytes each child writes (reference), and the scripted run twice (outcomes must be identical). Oracle: stdout == reference; files whose command could not start or failed after its output was consumed are named on stderr and the status is 2; early-stopped and merely noisy children produce no diagnostic; files not selected by --pre-glob / not compressed are searched directly; the run ends (90 s cap) under stderr floods. distinct_nontrivial = distinct (stdout, stderr) outcomes over workloads.",
+            vec![
+                "child timing is removed as an input by construction: abandoned output is always followed by filler larger than pipe capacity plus roll buffer, completed output is fully consumed".into(),
+                "-j1 --sort path makes the traversal order part of the model (needed to know which files a -q run reaches)".into(),
+            ],
+            |sub, acc, ctx, thorough| c18::run_workload(sub, acc, ctx, thorough),
         ),
         p => harness_error(&format!("procsim does not serve {p}")),
     };
